@@ -470,3 +470,115 @@ package keeper
 //@ ensures [stamp] (stretch) forall c string, j int :: len(old(k.GetPendingVSCPackets(ctx, c))) <= j && j < len(k.GetPendingVSCPackets(ctx, c)) ==> k.GetPendingVSCPackets(ctx, c)[j].ValsetUpdateId == id0
 //@ ensures [acks-need-packet] forall c string :: S[providertypes.SlashAcksKey(c)] != old(S[providertypes.SlashAcksKey(c)]) ==> len(k.GetPendingVSCPackets(ctx, c)) > len(old(k.GetPendingVSCPackets(ctx, c)))
 //@ ensures [no-send] E == old(E) && X == old(X)
+
+// ---------------------------------------------------------------- C10: lifecycle
+
+//@ func Keeper.FetchAndIncrementConsumerId
+//@ let n := old(k.GetConsumerId(ctx)).0
+//@ ensures [fresh] result == strconv.FormatUint(n, 10) && k.GetConsumerId(ctx).1 && k.GetConsumerId(ctx).0 == n + 1
+//@ ensures [frame] forall key bytes :: key != types.ConsumerIdKey() ==> S[key] == old(S[key])
+
+//@ func Keeper.InitializeConsumer
+//@ let phase := old(k.GetConsumerPhase(ctx, consumerId))
+//@ let ip := old(k.GetConsumerInitializationParameters(ctx, consumerId))
+//@ let ok := (phase == types.CONSUMER_PHASE_REGISTERED || phase == types.CONSUMER_PHASE_INITIALIZED) && ip.1 == nil && ip.0.SpawnTime != 0
+//@ ensures [def] result1 <==> ok
+//@ ensures [phase] result1 ==> k.GetConsumerPhase(ctx, consumerId) == types.CONSUMER_PHASE_INITIALIZED && result0 == ip.0.SpawnTime
+//@ ensures [unchanged] !result1 ==> S == old(S)
+//@ ensures [frame] forall key bytes :: key != types.ConsumerIdToPhaseKey(consumerId) ==> S[key] == old(S[key])
+//@ ensures [no-deps] E == old(E) && X == old(X)
+
+//@ func Keeper.PrepareConsumerForLaunch
+//@ ensures [remove-prev] previousSpawnTime != 0 ==> $RemoveConsumerToBeLaunched.called && $RemoveConsumerToBeLaunched.consumerId == consumerId && $RemoveConsumerToBeLaunched.spawnTime == previousSpawnTime
+//@ ensures [remove-failed] previousSpawnTime != 0 && $RemoveConsumerToBeLaunched.called && $RemoveConsumerToBeLaunched.ret != nil ==> result != nil
+//@ ensures [no-prev] previousSpawnTime == 0 ==> !$RemoveConsumerToBeLaunched.called
+//@ ensures [append] result == nil ==> $AppendConsumerToBeLaunched.called && $AppendConsumerToBeLaunched.consumerId == consumerId && $AppendConsumerToBeLaunched.spawnTime == spawnTime && $AppendConsumerToBeLaunched.ret == nil
+//@ ensures [no-deps] E == old(E) && X == old(X)
+
+//@ func Keeper.HasActiveConsumerValidator pure
+//@ ensures [frame] S == old(S) && E == old(E) && X == old(X)
+
+//@ func Keeper.LaunchConsumer
+//@ ensures [valset-args] result == nil ==> $ComputeConsumerNextValSet.called && $ComputeConsumerNextValSet.bondedValidators == bondedValidators && $ComputeConsumerNextValSet.activeValidators == activeValidators && $ComputeConsumerNextValSet.consumerId == consumerId && len($ComputeConsumerNextValSet.currentConsumerValSet) == 0
+//@ ensures [non-empty] result == nil ==> len($ComputeConsumerNextValSet.ret0) != 0 && $ComputeConsumerNextValSet.ret1 == nil
+//@ ensures [active-check] result == nil ==> $HasActiveConsumerValidator.called && $HasActiveConsumerValidator.consumerId == consumerId && $HasActiveConsumerValidator.activeValidators == activeValidators && $HasActiveConsumerValidator.ret0 && $HasActiveConsumerValidator.ret1 == nil
+//@ ensures [genesis] result == nil ==> $MakeConsumerGenesis.called && $MakeConsumerGenesis.consumerId == consumerId && $MakeConsumerGenesis.ret1 == nil && $SetConsumerGenesis.called && $SetConsumerGenesis.consumerId == consumerId
+//@ ensures [client] result == nil ==> $CreateConsumerClient.called && $CreateConsumerClient.consumerId == consumerId && $CreateConsumerClient.ret == nil
+//@ ensures [phase] result == nil ==> k.GetConsumerPhase(ctx, consumerId) == types.CONSUMER_PHASE_LAUNCHED
+
+// ---------------------------------------------------------------- C20: infraction parameters
+
+//@ func Keeper.UpdateQueuedInfractionParams
+//@ let cur := old(k.GetInfractionParameters(ctx, consumerId))
+//@ let ub := old(k.stakingKeeper.UnbondingTime(ctx))
+//@ ensures [removed-first] $RemoveConsumerInfractionQueuedData.called && $RemoveConsumerInfractionQueuedData.consumerId == consumerId
+//@ ensures [no-current] cur.1 != nil ==> result != nil
+//@ ensures [cancel] cur.1 == nil && compareInfractionParameters(cur.0, newInfractionParams) ==> result == nil && !$SetQueuedInfractionParameters.called && !$AddToInfractionUpdateSchedule.called
+//@ ensures [replace] result == nil && !compareInfractionParameters(cur.0, newInfractionParams) ==> $SetQueuedInfractionParameters.called && $SetQueuedInfractionParameters.consumerId == consumerId && $SetQueuedInfractionParameters.parameters == newInfractionParams && $AddToInfractionUpdateSchedule.called && $AddToInfractionUpdateSchedule.consumerId == consumerId && $AddToInfractionUpdateSchedule.updateTime == now + ub.0 && ub.1 == nil
+//@ ensures [current-kept] k.GetInfractionParameters(ctx, consumerId) == cur
+//@ ensures [no-deps] E == old(E) && X == old(X)
+
+//@ func compareSlashJailParameters
+//@ ensures [nil-nil] param1 == nil && param2 == nil ==> result
+//@ ensures [nil-one] (param1 == nil) != (param2 == nil) ==> !result
+//@ ensures [eq] param1 != nil && param2 != nil ==> (result <==> param1.Tombstone == param2.Tombstone && param1.SlashFraction == param2.SlashFraction && param1.JailDuration == param2.JailDuration)
+
+// ---------------------------------------------------------------- C14 (and C03, C20 wiring): message handlers
+
+//@ func Keeper.SetConsumerPowerShapingParameters
+//@ ensures [stored] result == nil ==> k.GetConsumerPowerShapingParameters(ctx, consumerId).1 == nil && k.GetConsumerPowerShapingParameters(ctx, consumerId).0 == parameters
+//@ ensures [no-deps] E == old(E) && X == old(X)
+
+//@ func Keeper.UpdateMinimumPowerInTopN
+//@ ensures [no-deps] E == old(E) && X == old(X)
+
+//@ func Keeper.UpdateAllowlistedRewardDenoms
+//@ ensures [no-deps] E == old(E) && X == old(X)
+
+//@ func Keeper.ChangeRewardDenoms
+//@ ensures [no-deps] E == old(E) && X == old(X)
+
+//@ func msgServer.UpdateParams
+//@ requires msg != nil && k.Keeper != nil
+//@ ensures [authority] msg.Authority != k.GetAuthority() ==> result1 != nil && S == old(S) && E == old(E)
+//@ ensures [invalid] msg.Params.Validate() != nil ==> result1 != nil && S == old(S)
+//@ ensures [set] result1 == nil ==> k.Keeper.GetParams(goCtx) == msg.Params
+//@ ensures [frame] forall key bytes :: key != types.ParametersKey() ==> S[key] == old(S[key])
+
+//@ func msgServer.ChangeRewardDenoms
+//@ requires msg != nil && k.Keeper != nil
+//@ ensures [authority] msg.Authority != k.GetAuthority() ==> result1 != nil && S == old(S) && E == old(E)
+
+//@ func msgServer.RemoveConsumer
+//@ requires msg != nil && k.Keeper != nil
+//@ let c := msg.ConsumerId
+//@ let owner0 := old(k.Keeper.GetConsumerOwnerAddress(goCtx, c))
+//@ let phase0 := old(k.Keeper.GetConsumerPhase(goCtx, c))
+//@ ensures [owner] result1 == nil ==> owner0.1 == nil && msg.Owner == owner0.0
+//@ ensures [launched] result1 == nil ==> phase0 == types.CONSUMER_PHASE_LAUNCHED
+//@ ensures [reject] owner0.1 != nil || msg.Owner != owner0.0 || phase0 != types.CONSUMER_PHASE_LAUNCHED ==> result1 != nil && S == old(S) && E == old(E)
+//@ ensures [stops] owner0.1 == nil && msg.Owner == owner0.0 && phase0 == types.CONSUMER_PHASE_LAUNCHED && old(k.Keeper.GetConsumerChainId(goCtx, c)).1 == nil ==> $StopAndPrepareForConsumerRemoval.called && $StopAndPrepareForConsumerRemoval.consumerId == c && result1 == $StopAndPrepareForConsumerRemoval.ret
+
+//@ func msgServer.UpdateConsumer
+//@ requires msg != nil && k.Keeper != nil
+//@ let c := msg.ConsumerId
+//@ let owner0 := old(k.Keeper.GetConsumerOwnerAddress(goCtx, c))
+//@ let psp0 := old(k.Keeper.GetConsumerPowerShapingParameters(goCtx, c))
+//@ let infr0 := old(k.Keeper.GetInfractionParameters(goCtx, c))
+//@ let pre0 := old(k.Keeper.IsConsumerPrelaunched(goCtx, c))
+//@ ensures [inactive] !old(k.Keeper.IsConsumerActive(goCtx, c)) ==> result1 != nil && S == old(S)
+//@ ensures [owner] result1 == nil ==> owner0.1 == nil && msg.Owner == owner0.0
+//@ ensures [not-owner] owner0.1 != nil || msg.Owner != owner0.0 ==> result1 != nil && S == old(S)
+//@ ensures [transfer] result1 == nil ==> k.Keeper.GetConsumerOwnerAddress(goCtx, c).1 == nil && k.Keeper.GetConsumerOwnerAddress(goCtx, c).0 == (strings.TrimSpace(msg.NewOwnerAddress) != "" ? msg.NewOwnerAddress : owner0.0)
+//@ ensures [topn-gov] result1 == nil ==> k.Keeper.GetConsumerPowerShapingParameters(goCtx, c).1 == nil && (k.Keeper.GetConsumerPowerShapingParameters(goCtx, c).0.Top_N != 0 ==> k.Keeper.GetConsumerOwnerAddress(goCtx, c).0 == k.GetAuthority())
+//@ ensures [topn-pre] result1 == nil && msg.PowerShapingParameters != nil && msg.PowerShapingParameters.Top_N > 0 ==> owner0.0 == k.GetAuthority()
+//@ ensures [topn-min-power] result1 == nil && msg.PowerShapingParameters != nil ==> $UpdateMinimumPowerInTopN.called && $UpdateMinimumPowerInTopN.consumerId == c && $UpdateMinimumPowerInTopN.oldTopN == psp0.0.Top_N && $UpdateMinimumPowerInTopN.newTopN == msg.PowerShapingParameters.Top_N
+//@ ensures [infr-immediate] result1 == nil && msg.InfractionParameters != nil && pre0 ==> $SetInfractionParameters.called && $SetInfractionParameters.consumerId == c && !$UpdateQueuedInfractionParams.called && $SetInfractionParameters.parameters.DoubleSign == (msg.InfractionParameters.DoubleSign != nil ? msg.InfractionParameters.DoubleSign : infr0.0.DoubleSign) && $SetInfractionParameters.parameters.Downtime == (msg.InfractionParameters.Downtime != nil ? msg.InfractionParameters.Downtime : infr0.0.Downtime)
+//@ ensures [infr-queued] result1 == nil && msg.InfractionParameters != nil && !pre0 ==> $UpdateQueuedInfractionParams.called && $UpdateQueuedInfractionParams.consumerId == c && !$SetInfractionParameters.called && $UpdateQueuedInfractionParams.newInfractionParams.DoubleSign == (msg.InfractionParameters.DoubleSign != nil ? msg.InfractionParameters.DoubleSign : infr0.0.DoubleSign) && $UpdateQueuedInfractionParams.newInfractionParams.Downtime == (msg.InfractionParameters.Downtime != nil ? msg.InfractionParameters.Downtime : infr0.0.Downtime)
+//@ ensures [infr-untouched] result1 == nil && msg.InfractionParameters == nil ==> !$SetInfractionParameters.called && !$UpdateQueuedInfractionParams.called
+
+//@ func msgServer.CreateConsumer
+//@ requires msg != nil && k.Keeper != nil
+//@ ensures [opt-in-only] result1 == nil ==> result0 != nil && k.Keeper.GetConsumerPowerShapingParameters(goCtx, result0.ConsumerId).1 == nil && k.Keeper.GetConsumerPowerShapingParameters(goCtx, result0.ConsumerId).0.Top_N == 0
+//@ ensures [owner] result1 == nil ==> k.Keeper.GetConsumerOwnerAddress(goCtx, result0.ConsumerId).1 == nil && k.Keeper.GetConsumerOwnerAddress(goCtx, result0.ConsumerId).0 == msg.Submitter
+//@ ensures [fresh-id] result1 == nil ==> result0.ConsumerId == strconv.FormatUint(old(k.Keeper.GetConsumerId(goCtx)).0, 10)
